@@ -3,8 +3,9 @@
 Engine E: breadth-first search over sequences of system.local / system.peers(_v2) snapshots served
 by the virtual node to a real Cluster (control connection, session, pools); every snapshot is
 followed by ControlConnection.refresh_node_list_and_token_map().  After every refresh the real
-Metadata, the notifications seen by a registered HostStateListener, the calls seen by the
-load-balancing policy and the token map are compared with the reference vt/spec/nodelist.py.
+Metadata, the notifications seen by a registered HostStateListener, the calls seen by a recording
+load-balancing policy, the query plans and distances of real DCAwareRoundRobinPolicy / TokenAwarePolicy
+instances and the token map are compared with the reference vt/spec/nodelist.py.
 """
 import uuid
 
@@ -25,7 +26,13 @@ META = {
             'is a known host at that moment and for a new one (counters ignored_rows/...); '
             'system.peers_v2 and system.peers dialects, token metadata on and off.  After each refresh: known hosts = control node + valid distinct '
             'peers; host datacenter/rack/host_id as in the rows; listener on_add once per new host and on_remove once per vanished host, none else; '
-            'for a known host whose datacenter or rack changed the load-balancing policy saw on_down then on_up with the new location; '
+            'for a known host whose datacenter or rack changed (at the first, second or third refresh; control node and peers) a recording '
+            'load-balancing policy saw on_down while the host still showed its old location, then on_up with the new one; three real location-keyed '
+            'policies attached to the profile manager before the first refresh - DCAwareRoundRobinPolicy(local dc1) using all remote hosts, the same '
+            'using none, and TokenAwarePolicy over the first - are judged after every refresh against the snapshot: distance() of every known host '
+            '(LOCAL in dc1, else REMOTE / IGNORED) and their query plans (a full round-robin turn + 1; for the token-aware one a statement per probe '
+            'routing key): every host the policy uses exactly once, nothing else (no vanished host, no host twice), dc1 hosts before the others, '
+            'the dc1 primary replica first; '
             'token map owners and get_replicas() (SimpleStrategy rf=1 keyspace) equal the ring of the last snapshot.',
     'note': 'Every peer address accepts connections.  A peers row whose address column is null but whose `peer` column is set is not generated '
             '(the driver documents a fall-back to `peer`; the statement does not say).  Rows sharing an endpoint agree on location and tokens.',
@@ -472,11 +479,15 @@ def run(ctx):
         explore.bfs(ctx, H, params, max_depth=depth, label='c42-' + name)
     ctx.cov['rule'] = ('state = snapshot history replayed on a fresh real Cluster; one transition = one served snapshot + one refresh; '
                        'non-trivial = transition whose snapshot contains an invalid/changed/duplicate row or a changed local row, per distinct resulting state; '
-                       'outcomes = (hosts expected, hosts added, hosts removed)')
+                       'outcomes = (hosts expected, hosts added, hosts removed); location_changes_of_known_hosts/<who>/<what>/refresh-<n> = transitions in '
+                       'which a host known before the refresh reported another datacenter/rack; policy_plans_judged / policy_distances_judged = query plans / '
+                       'distances of the real datacenter-aware policies compared with the snapshot; the canonical state includes what those policies plan')
     ctx.assume('every address that appears in a valid peers row accepts connections (pool creation succeeds)')
     ctx.assume('a peers row whose rpc_address/native_address is null while `peer` is set is not generated: the driver documents a fall-back to `peer`, the statement does not decide')
     ctx.assume('rows that share an endpoint agree on datacenter, rack and tokens (which row wins is not specified)')
     ctx.assume('the system.local row is always complete')
+    ctx.assume('the datacenter-aware policies are given local_dc explicitly; used_hosts_per_remote_dc is 0 or larger than the number of hosts '
+               '(which remote hosts a smaller limit selects is not decided by the statement)')
 
 
 def replay(ctx, data):
